@@ -112,7 +112,7 @@ def relXcheck (st : StoreSt) (key : String) (impl : List String) (needHasName : 
       ("index_order_is_creation_order", (known.filter fun i => ids.contains i) == (ids.filter fun i => known.contains i)) ]
   | _ => []
 
-def handle (ds : DState) (op : String) (args impl : List String) : Option (DState × Out) :=
+def handleImpl (ds : DState) (op : String) (args impl : List String) : Option (DState × Out) :=
   let st := ds.store
   let ok := implOk impl
   -- a short descriptor of the call: the op and the argument that selects the entry point
@@ -126,7 +126,7 @@ def handle (ds : DState) (op : String) (args impl : List String) : Option (DStat
     | "sdim", _ :: _ :: f :: _ => s!"sdim.{f}"
     | "del", k :: _ => s!"del.{k}"
     | _, _ => op
-  let note (st : StoreSt) : StoreSt := if readOnlyOps.contains op then st else { st with sinceDump := st.sinceDump ++ [(desc, ok)] }
+  let note (st : StoreSt) : StoreSt := if readOnlyOps.contains op then st else { st with sinceDump := st.sinceDump ++ [(desc, ok)], lastDeleted := none }
   let fin (st : StoreSt) (o : Out) : Option (DState × Out) := some ({ ds with store := st }, o)
   match op with
   | "fopen" | "fclose" | "freopen" | "fflush" | "fdrop" | "fisopen" | "fbytes" =>
@@ -134,8 +134,9 @@ def handle (ds : DState) (op : String) (args impl : List String) : Option (DStat
   | "mk" =>
     let st := note st
     match args, impl with
-    | slot :: kind :: parent :: _, ["ok", id, _] =>
+    | slot :: kind :: parent :: nameTok :: _, ["ok", id, _] =>
       let st := bind st slot id
+      let st := { st with slotInfo := (slot, (kind, parent, nameTok)) :: st.slotInfo.filter (·.1 != slot) }
       let st := match slotId st parent with
         | some pid => appendOrder st (containerKey kind pid) id
         | none => st
@@ -146,12 +147,25 @@ def handle (ds : DState) (op : String) (args impl : List String) : Option (DStat
     match args, impl with
     | slot :: kind :: _, ["ok", id] => fin (if id.length == 36 then bind st slot id else { st with slotIds := st.slotIds.filter (·.1 != slot) }) (.ok s!"get.{kind}")
     | _, _ => fin st (.ok "get.err")
-  | "has" | "count" | "list" | "valid" | "drop" | "idof" | "haslink" | "getlink" | "countlink" | "listlink" =>
+  | "valid" =>
+    -- C04: a handle to an entity that has just been deleted reports itself invalid
+    fin st (judge s!"valid.{if ok then "ok" else "err"}" impl impl
+      (if args.length == 2 && args[1]? == some "deleted" && st.lastDeleted == args[0]? then [("deleted_handle_reports_invalid", impl == ["ok", "0"])] else []))
+  | "has" | "count" | "list" | "drop" | "idof" | "haslink" | "getlink" | "countlink" | "listlink" =>
     fin st (.ok s!"{op}.{if ok then "ok" else "err"}")
   | "adim" | "sdim" | "ddims" | "da_setext" | "da_fill" | "pvalues" | "pset" | "mkpv" =>
     fin (note st) (.ok s!"{op}.{(args[1]?).getD ""}.{if ok then "ok" else (impl[1]?).getD "err"}")
   | "dims" | "gdim" | "pget" | "da_read1" => fin st (.ok s!"{op}.{if ok then "ok" else "err"}")
-  | "del" | "link" | "unlink" | "single" | "set" =>
+  | "del" =>
+    -- which slot's entity went: named by handle / idof directly, by name through what mk recorded
+    let victim : Option String := match args with
+      | [_, _, "handle", k] => some k
+      | [_, _, "idof", k] => some k
+      | [kind, par, "name", k] => (st.slotInfo.find? fun e => e.2 == (kind, par, k)).map (·.1)
+      | _ => none
+    let st := { (note st) with lastDeleted := if impl == ["ok", "1"] then victim else none }
+    fin st (.ok s!"{op}.{(args.head?).getD ""}.{if ok then (impl[1]?).getD "ok" else (impl[1]?).getD "err"}")
+  | "link" | "unlink" | "single" | "set" =>
     fin (note st) (.ok s!"{op}.{(args.head?).getD ""}.{if ok then (impl[1]?).getD "ok" else (impl[1]?).getD "err"}")
   | "xcheck" =>
     match args with
@@ -187,5 +201,48 @@ def handle (ds : DState) (op : String) (args impl : List String) : Option (DStat
         else if since.length == 1 && since.all (fun e => e.1.startsWith "del." && e.2) then "dump.after_delete" else "dump.after_ops"
       fin { st with lastDump := some d, sinceDump := [], everSeen := remember st.everSeen d } (judge tag impl impl (idRules ++ histRules))
   | _ => none
+
+/-- compare the model's prediction with what the library answered -/
+def predAgrees (p : StoreModel.Pred) (impl : List String) : Bool :=
+  match p with
+  | .exact t => impl == t
+  | .okAny => impl.head? == some "ok"
+  | .err c => impl == ["err", c]
+  | .skip => true
+  | .unsupported _ => true
+
+def predText : StoreModel.Pred → String
+  | .exact t => " ".intercalate t
+  | .okAny => "ok …"
+  | .err c => s!"err {c}"
+  | .skip => "(no prediction)"
+  | .unsupported w => s!"(unsupported: {w})"
+
+/-- impl-side rules first (a REL verdict outranks everything), then the model: its prediction for the op, and at every dump
+    `observe` of the model store against the library's dump -/
+def handle (ds : DState) (op : String) (args impl : List String) : Option (DState × Out) :=
+  match handleImpl ds op args impl with
+  | none => none
+  | some (ds1, out) =>
+    let ms := ds.smodel
+    -- a session the model is not following: only fopen can start a new one
+    let (ms1, pred) := StoreModel.step ms op args impl
+    match out with
+    | .ok tag =>
+      if ms1.lost.isSome && op != "fopen" then some ({ ds1 with smodel := ms1 }, .ok tag) else
+      match pred with
+      | .unsupported why => some ({ ds1 with smodel := { ms1 with lost := some why } }, .ok (tag ++ "+untracked"))
+      | _ =>
+        if !predAgrees pred impl then
+          some ({ ds1 with smodel := { ms1 with lost := some "diverged" } }, .diff tag (predText pred))
+        else if (op == "dump" || op == "dumpx") && ms1.lost.isNone then
+          match Dump.parse impl with
+          | some d =>
+            (match St.firstDisagreement (St.observe ms1.store) d with
+            | none => some ({ ds1 with smodel := ms1 }, .ok (tag ++ "+M"))
+            | some why => some ({ ds1 with smodel := { ms1 with lost := some "diverged" } }, .diff tag why))
+          | none => some ({ ds1 with smodel := ms1 }, .ok tag)
+        else some ({ ds1 with smodel := ms1 }, .ok (match pred with | .skip => tag | _ => tag ++ "+M"))
+    | o => some ({ ds1 with smodel := { ms1 with lost := ms1.lost <|> some "earlier verdict" } }, o)
 
 end Nix.Drive.Store
